@@ -99,6 +99,12 @@ def run(rep):
             xs = {show(e.idx): e for e in ce.effects if e.arr == xyname and e.op == "=" and not e.conds}
             okc = set(xs) >= {"0", "1"} and cq.same_expr(xs["0"].val, f"xy_area[2*{iv}]") and cq.same_expr(xs["1"].val, f"xy_area[2*{iv}+1]")
     rep.check(okc, "R16.a", file, "c_intersect", "point i = centre of catchment cell i, located in the coarse grid with c_coord2cell(grid geometry, 1, xy, cell)", "", line=loop.get("_line"))
+    # the weights count the centres c_coord2cell places in each coarse cell: its half-open inside test and numbering (decided for C07) are
+    # what makes a centre on the top / right edge of the coarse grid fall outside, and the weights add up to the overlap
+    from ..core import borrow
+    nb_ = borrow(rep, "C07", "R16.e", "c_intersect locates every cell centre with c_coord2cell: the kernel's inside test, numbering and -1 outside (clauses decided for C07)",
+                 lambda e: (e.func or "") == "c_coord2cell")
+    rep.floor("c_coord2cell clauses taken over from C07", nb_, 4)
     if not okc or cellname is None:
         return EXPLANATION
     CELL = f"{cellname}[0]"
